@@ -297,7 +297,13 @@ def ambiguity(b):
         return None
     first = next(i for i in G.images(b.family) if i["image_type"] == info["image_type"])
     if first["cls"] != info["cls"]:
-        return "type-shared"
+        # the recorded finding is exactly: plain XIP and plain RAM share type 0, signed XIP and signed RAM share type 4
+        # (the format has no other way to tell them apart).  Any OTHER pair of classes that ends up with one image type -
+        # e.g. through a slip in a device data file - is not that finding.
+        pair = {(first["auth"], first["target"]), (info["auth"], info["target"])}
+        known = (pair == {("plain", "xip"), ("plain", "load_to_ram")} and info["image_type"] == 0) or \
+                (pair == {("signed", "xip"), ("signed", "load_to_ram")} and info["image_type"] == 4)
+        return "type-shared" if known else f"type-shared-unexpectedly:{first['auth']}-{first['target']}+{info['auth']}-{info['target']}"
     return None
 
 
@@ -495,9 +501,27 @@ def _run(case, ctx, b, SPSDKError, MasterBootImage):  # noqa: C901
     same_class = type(par).__name__ == info["cls"]
     if not same_class:
         key = {"type-shared": "mbi-type-ambiguous-xip-vs-ram", "type-not-in-image": "mbi-parse-type-from-payload"}.get(
-            amb, "parsed-as-different-class")
+            amb, "mbi-" + amb if amb else "parsed-as-different-class")
         viol(key, parsed_class=type(par).__name__, built_class=info["cls"], image_type=info["image_type"],
              parsed_load_address=getattr(par, "load_address", "absent"))
+
+    # a signed but NOT encrypted image needs no key to be read: parsing it without the user key must give the same
+    # application and the same TrustZone data (the key only serves the HMAC check)
+    if same_class and b.dek and not b.has("ExportMixinAppTrustZoneCertBlockEncrypt"):
+        ctx.count("parse_without_key")
+        try:
+            par_nk = MasterBootImage.parse(family, data, dek=None)
+        except Exception as e:  # pylint: disable=broad-except
+            if not core.is_refusal(e) and core.origin_of(e) != "repo":
+                raise
+            viol(f"parse-without-key-failed:{type(e).__name__}:{export_mixin(b)}", exception=core.exc_brief(e))
+        else:
+            if bytes(par_nk.app or b"") != bytes(par.app or b""):
+                viol(f"parse-without-key-differs:app:{export_mixin(b)}", with_key_len=len(par.app or b""), without_key_len=len(par_nk.app or b""))
+            tz_a, tz_b = getattr(par, "trust_zone", None), getattr(par_nk, "trust_zone", None)
+            if tz_a is not None and tz_b is not None and (tz_a.type.tag != tz_b.type.tag or bytes(tz_a.export()) != bytes(tz_b.export())):
+                viol(f"parse-without-key-differs:trust-zone:{export_mixin(b)}", with_key=core.hx(bytes(tz_a.export())[:48]),
+                     without_key=core.hx(bytes(tz_b.export())[:48]))
 
     # payload
     want_app, dontcare = expected_payload(b)
